@@ -71,9 +71,21 @@ func NewStoreStreamReceiver(r io.Reader) *storeStreamReceiver {
 }
 
 func (s *storeStreamReceiver) Recv() (*datatypes.ReadResponse, error) {
-	typ, buf, err := ReadTLV(s.r)
+	typ, err := ReadType(s.r)
 	if err != nil {
-		if strings.Contains(err.Error(), "EOF") || strings.Contains(err.Error(), "use of closed network connection") {
+		// The stream ends where no further frame begins (or where the reader
+		// closed the connection itself).
+		if strings.HasSuffix(err.Error(), ": EOF") || strings.Contains(err.Error(), "use of closed network connection") {
+			return nil, io.EOF
+		}
+		return nil, err
+	}
+	buf, err := ReadLV(s.r)
+	if err != nil {
+		// A frame was begun but did not arrive completely: the peer went away
+		// mid-stream. That is an error, not the end of the stream, although the
+		// message mentions EOF.
+		if strings.Contains(err.Error(), "use of closed network connection") {
 			return nil, io.EOF
 		}
 		return nil, err
